@@ -20,7 +20,9 @@ typedef struct {
 static void mat_free(mat_t *M) { free(M->pat); M->pat = 0; /* CSC arrays are owned by the SuperMatrix */ }
 
 /* value styles: 0 = random in +-[1,11); 1 = strictly diagonally dominant (needs full diagonal);
-   2 = small integers in -2..2 \ {0}; 3 = graded (rows scaled by powers of two) */
+   2 = small integers in -2..2 \ {0}; 3 = graded (rows scaled by powers of two);
+   4 = strictly diagonally dominant by ROWS only, rows then scaled by powers of two: elimination without interchanges keeps every
+       diagonal entry nonzero (row dominance is inherited by the Schur complements), but the diagonal is not the largest entry of its column */
 static SCALAR gen_value(rng_t *r, int style, int i, int j, int n)
 {
     double re, im = 0;
@@ -52,6 +54,17 @@ static void mat_from_pattern(mat_t *M, int_t n, char *pat, int style, rng_t *r)
 	for (j = 0; j < n; ++j) for (i = M->colptr[j]; i < M->colptr[j + 1]; ++i)
 	    if (M->rowind[i] == j) { double d = (rs[j] > cs[j] ? rs[j] : cs[j]) * 1.5 + 1.0; M->val[i] = mk_scalar(rng_int(r, 2) ? d : -d, 0); }
 	free(rs); free(cs);
+    }
+    if (style == 4) {
+	double *rs = (double *) calloc(n, sizeof(double));
+	for (j = 0; j < n; ++j) for (i = M->colptr[j]; i < M->colptr[j + 1]; ++i)
+	    if (M->rowind[i] != j) rs[M->rowind[i]] += (double) cabsl(to_lc(M->val[i]));
+	for (j = 0; j < n; ++j) for (i = M->colptr[j]; i < M->colptr[j + 1]; ++i) {
+	    int_t ri = M->rowind[i]; lc v = to_lc(M->val[i]);
+	    if (ri == j) v = (lc) ((rs[j] * 1.5 + 1.0) * (rng_int(r, 2) ? 1.0 : -1.0));
+	    M->val[i] = from_lc(v * (lc) ldexp(1.0, (int) ((ri * 5) % 7)));
+	}
+	free(rs);
     }
 }
 
